@@ -698,5 +698,36 @@ theorem mass_eq_spec_adducts_of_tables (hR : Gen.aaComp = residueFormula) (hA : 
   apply congrArg (fun q => roundOpt q o.precision)
   ring
 
+
+/-! ### closeness of two mass tables carries over to compositions (C02: library tables vs hand-typed reference) -/
+
+def absQ (q : Rat) : Rat := if q < 0 then -q else q
+
+/-- Σ |count| -/
+def l1 (c : Comp) : Rat := sumR (c.map fun p => absQ p.2)
+
+theorem absQ_nonneg (q : Rat) : 0 ≤ absQ q := by
+  unfold absQ; split_ifs with h <;> linarith
+
+theorem term_close (d k ε : Rat) (h1 : -ε ≤ d) (h2 : d ≤ ε) : d * k ≤ ε * absQ k ∧ -(ε * absQ k) ≤ d * k := by
+  unfold absQ
+  split_ifs with hk
+  · constructor <;> nlinarith
+  · have hk' : 0 ≤ k := not_lt.mp hk
+    constructor <;> nlinarith
+
+theorem chemMassL_close (ν₁ ν₂ : Elem → Rat) (ε : Rat) (keys : List Elem)
+    (hk : ∀ e ∈ keys, -ε ≤ ν₁ e - ν₂ e ∧ ν₁ e - ν₂ e ≤ ε) (c : Comp) (hc : ∀ p ∈ c, p.1 ∈ keys) :
+    chemMassL ν₁ c - chemMassL ν₂ c ≤ ε * l1 c ∧ -(ε * l1 c) ≤ chemMassL ν₁ c - chemMassL ν₂ c := by
+  induction c with
+  | nil => simp [chemMassL_nil, l1, sumR_nil]
+  | cons p c ih =>
+    obtain ⟨i1, i2⟩ := ih (fun q hq => hc q (List.mem_cons_of_mem _ hq))
+    obtain ⟨b1, b2⟩ := hk p.1 (hc p List.mem_cons_self)
+    obtain ⟨t1, t2⟩ := term_close (ν₁ p.1 - ν₂ p.1) p.2 ε b1 b2
+    have hl : l1 (p :: c) = absQ p.2 + l1 c := rfl
+    rw [chemMassL_cons, chemMassL_cons, hl]
+    constructor <;> nlinarith
+
 end Mass
 end Pept
